@@ -50,18 +50,21 @@ impl StrLike for &Addr { open spec fn s(self) -> Seq<char> { self@ } }
 pub uninterp spec fn canon(h: Seq<char>) -> Seq<u8>;
 pub uninterp spec fn human(c: Seq<u8>) -> Seq<char>;
 pub uninterp spec fn addr_valid(h: Seq<char>) -> bool;
+/// canonical addresses produced by the api can be humanized again
+pub uninterp spec fn canon_ok(c: Seq<u8>) -> bool;
 
 pub struct Api { pub _p: u8 }
 impl Api {
     /// A10: on success the canonical form round-trips (bech32 / mock api normalisation)
     #[verifier::external_body]
     pub fn addr_canonicalize(&self, h: &str) -> (r: StdResult<CanonicalAddr>)
-        ensures r is Ok ==> r->Ok_0@ == canon(h@) && human(canon(h@)) == h@,
+        ensures r is Ok ==> r->Ok_0@ == canon(h@) && human(canon(h@)) == h@ && canon_ok(canon(h@)),
                 r is Ok <==> addr_valid(h@),
     { unimplemented!() }
     #[verifier::external_body]
     pub fn addr_humanize(&self, c: &CanonicalAddr) -> (r: StdResult<Addr>)
         ensures r is Ok ==> r->Ok_0@ == human(c@) && canon(human(c@)) == c@ && addr_valid(human(c@)),
+                r is Ok <==> canon_ok(c@),
     { unimplemented!() }
     #[verifier::external_body]
     pub fn addr_validate(&self, h: &str) -> (r: StdResult<Addr>)
@@ -288,3 +291,5 @@ impl<'a> Copy for Deps<'a> {}
 // ---------------------------------------------------------------- std helpers without vstd specs
 pub assume_specification<T: Default, E>[ Result::<T, E>::unwrap_or_default ](x: Result<T, E>) -> (o: T)
     ensures x is Ok ==> o == x->Ok_0;
+/// typed `None` for the R8 search loop (lets rustc infer Option<&T> from the searched Vec)
+pub fn none_of<T>(v: &Vec<T>) -> (r: Option<&T>) ensures r is None { None }
